@@ -5,4 +5,5 @@ CONSTANTS
   SetOrder = FALSE
   Timestamps = FALSE
   ComponentMemo = FALSE
+  FailureCorrupts = FALSE
 INVARIANT OutputIsFunctionOfModel
